@@ -66,6 +66,29 @@ var getReplacementSpec = &decideSpec{
 	},
 }
 
+// InterfaceConfig.Initialize: what happens to the `configs` list (trace mode): the function as a whole, and one
+// iteration of its loop over the entries
+var ifaceInitTrace = map[string]string{
+	"c.Configs = []*Config{c.Config}":     "configs := [config]",
+	"subCfg = &Config{}":                  "entry := {}",
+	"c.Configs[i] = subCfg":               "store entry",
+	"mergeConfigs(ctx, *c.Config, subCfg)": "merge config into entry",
+}
+
+var ifaceInitSpec = &decideSpec{
+	file: "config/config.go", recv: "InterfaceConfig", fn: "Initialize", lean: "interfaceInitializeEffects", plain: true,
+	params: "(nConfigs : Nat)", result: "List String",
+	atoms:  map[string]string{"len(c.Configs)": "nConfigs", "nil": "[]"},
+	trace:  ifaceInitTrace,
+}
+
+var ifaceInitEntrySpec = &decideSpec{
+	file: "config/config.go", recv: "InterfaceConfig", fn: "Initialize", lean: "interfaceInitializeEntryEffects", plain: true, loopBody: true,
+	params: "(entryIsNil : Bool)", result: "List String",
+	atoms:  map[string]string{"subCfg == nil": "entryIsNil"},
+	trace:  ifaceInitTrace,
+}
+
 // ---- mergeStringMaps ----
 
 type mapTr struct {
@@ -216,7 +239,15 @@ func init() {
 		if err != nil {
 			g = fmt.Sprintf("/-- translation failed: %s -/\ndef getReplacement : Nat := (show Nat from %s)\n", strings.ReplaceAll(err.Error(), "-/", "- /"), leanStr(err.Error()))
 		}
-		b.WriteString(g + "\nend Mockery.Generated.Merge\n")
+		b.WriteString(g + "\n")
+		for _, sp := range []*decideSpec{ifaceInitSpec, ifaceInitEntrySpec} {
+			d, err := translateDecide(src, sp)
+			if err != nil {
+				d = fmt.Sprintf("/-- translation failed: %s -/\ndef %s %s : %s :=\n  (show Nat from %s)\n", strings.ReplaceAll(err.Error(), "-/", "- /"), sp.lean, sp.params, sp.result, leanStr(err.Error()))
+			}
+			b.WriteString(d + "\n")
+		}
+		b.WriteString("end Mockery.Generated.Merge\n")
 		return b.String(), nil
 	})
 }
